@@ -627,6 +627,11 @@ func (broker *Broker) scan() []sts.Hashed {
 			// Add any that might have failed the hash calculation last time
 			wrapped = append(wrapped, &hashFile{File: cached})
 		case cached.IsDone() && broker.canDelete(cached):
+			if f, e := store.Sync(cached); f != nil || (e != nil && !store.IsNotExist(e)) {
+				// Changed since it was confirmed: this is a new version (found
+				// by the scan above), not the one that may be deleted
+				break
+			}
 			err = broker.Conf.Store.Remove(cached)
 			if err != nil {
 				broker.error("Failed to delete aged file:", cached.GetName())
